@@ -1,4 +1,5 @@
 import PdshVerif.Dsh.Signals
+import PdshVerif.Dsh.SignalsOutput
 import Driver.Util
 
 /-! engine `sig`: trace acceptor for the projected traces of the `sched` harness with signals (C20).
@@ -18,7 +19,8 @@ import Driver.Util
     obs list <i,j,..|->            hosts named by the listing the implementation printed for the signal just handled
     obs canc <n>                   the number in "Canceled n pending threads"
     obs path <i> <reading|closing> what worker i does after _update_connect_state
-    obs fwds <i,j,..|->            hosts a signal was forwarded to so far               -> ok | reject ..
+    obs fwds <i,j,..|->            hosts a signal was forwarded to so far
+    obs emit <W<i>|Z>              the thread makes a stdio call (fputs) now                -> ok | reject ..
     end <ok|exit c|deadlock|other> ok: dsh() returned; exit c: exit(c) was called; deadlock: nothing enabled
     After a reject every line up to the next `init` answers `skip`.
     The transition function is `PdshVerif.Dsh.Sig.step`, the one the theorems are about. -/
@@ -192,6 +194,13 @@ def checkObs (s : St) : List String → Option String
     | some i =>
       let m := match s.ws[i]? with | some w => showW w | none => "?"
       if m = p then none else some s!"worker {i} after connect: impl={p} model={m}"
+    | none => some "bad obs line"
+  | ["emit", t] =>
+    -- a stdio call (fputs on stdout / stderr) by thread t: the product model (Dsh/SignalsOutput.lean) says who can be
+    -- inside one: `emits`
+    let who : Option Own := if t = "Z" then some .s else (parseW t).map .w
+    match who with
+    | some o => if emits s o then none else some s!"{t} writes to stdout/stderr where the model has no stdio call ({showSt s})"
     | none => some "bad obs line"
   | ["fwds", l] =>
     match natList l with
